@@ -76,6 +76,18 @@ def gen_cases(tier, seed):
         for j in range(40 if q else 80):
             sim = CONT[j % len(CONT)]
             c = simreg.random_sim_case(r, sim, nmax=16)
+            if sim == 'Gillespie_simple_contagion' and (j // len(CONT)) % 2 == 1:
+                # directed contact network with several predecessors per node (bookkeeping over predecessor / successor collections)
+                nd = r.randint(6, 10)
+                pd = r.choice([0.35, 0.5])
+                g = {'n': nd, 'edges': [[a, b] for a in range(nd) for b in range(nd) if a != b and r.random() < pd], 'directed': True}
+                if c.get('weight_form'):
+                    g['ew'] = {'ew_': gen.weights(r, len(g['edges']), 'nondyadic')}
+                    g['nw'] = {'nw_': gen.weights(r, nd, 'nondyadic')}
+                c['graph'] = g
+                c['IC'] = [r.randrange(len(c['spec']['statuses'])) for _ in range(nd)]
+                c.pop('prehistory', None)
+                c['tmax'] = c['tmin'] + 6
             c['graph']['labels'] = 'str'
             c['full'] = (j // len(CONT)) % 2 == 0
             c['I0_form'] = 'list'
